@@ -1,9 +1,15 @@
 import PhononModel.Lemmas.Supercell
 import PhononModel.Lemmas.SNFDiag
+import PhononModel.Lemmas.Frame
+import PhononModel.Lemmas.SNFTerm
+import PhononModel.Lemmas.SNFPos
 import PhononModel.Model.CellTables
 import Mathlib.Data.Fintype.Basic
 import Mathlib.Data.Fintype.EquivFin
 import Mathlib.Logic.ExistsUnique
+import Mathlib.Algebra.BigOperators.Group.Finset.Basic
+import Mathlib.Algebra.Order.BigOperators.Group.Finset
+import Mathlib.Data.Fintype.Card
 /-!
 # C04 — supercell and primitive cell are exact re-tilings with consistent index maps
 
@@ -126,18 +132,25 @@ theorem snf_diagonal (fuel : Nat) (A : M3 Int) (o : Out) (hA : A.det ≠ 0) (h :
     (hf : o.finished = true) (hx : o.xok = true) (hok : o.finOk = true) : o.D.isDiag = true :=
   run_diag fuel A o hA h hf hx hok
 
-/-- partial form of the Smith-normal-form result: diagonal by construction; with positive diagonal
-(decided on the output) the product is `|det A|` and `(D, P, adj P, Q, det Q · adj Q)` is an SNF
-certificate in the sense of `SnfCert.ok`. -/
-theorem snf_result_partial (fuel : Nat) (A : M3 Int) (o : Out) (hA : A.det ≠ 0) (h : SNF.run fuel A = .ok o)
-    (hf : o.finished = true) (hx : o.xok = true) (hok : o.finOk = true)
-    (h0 : 0 < o.D.a00) (h1 : 0 < o.D.a11) (h2 : 0 < o.D.a22) :
-    o.D.isDiag = true ∧ o.D.a00 * o.D.a11 * o.D.a22 = |A.det| ∧
+/-- **positive diagonal**: the sign fix-up of `_finalize` makes the diagonal positive and the two
+disturb-and-reduce rounds keep it positive (sign analysis of the `Xgcd` results on the sorted diagonal). -/
+theorem snf_positive (fuel : Nat) (A : M3 Int) (o : Out) (hA : A.det ≠ 0) (h : SNF.run fuel A = .ok o)
+    (hf : o.finished = true) (hx : o.xok = true) (hok : o.finOk = true) :
+    0 < o.D.a00 ∧ 0 < o.D.a11 ∧ 0 < o.D.a22 :=
+  run_pos fuel A o hA h hf hx hok
+
+/-- **the Smith-normal-form result** (what `SNF3x3` promises): `D = P·A·Q` diagonal with positive entries
+whose product is `|det A|`, `det P = 1`, `det Q = ±1`; `(D, P, adj P, Q, det Q · adj Q)` is an SNF certificate
+in the sense of `SnfCert.ok`. -/
+theorem snf_result (fuel : Nat) (A : M3 Int) (o : Out) (hA : A.det ≠ 0) (h : SNF.run fuel A = .ok o)
+    (hf : o.finished = true) (hx : o.xok = true) (hok : o.finOk = true) :
+    o.D.isDiag = true ∧ (0 < o.D.a00 ∧ 0 < o.D.a11 ∧ 0 < o.D.a22) ∧ o.D.a00 * o.D.a11 * o.D.a22 = |A.det| ∧
     SnfCert.ok A ⟨o.D, o.P, o.P.adj, o.Q, M3.smul o.Q.det o.Q.adj⟩ = true := by
   have hd := snf_diagonal fuel A o hA h hf hx hok
+  obtain ⟨h0, h1, h2⟩ := snf_positive fuel A o hA h hf hx hok
   have hinv := snf_invariant fuel A o h
   obtain ⟨hp, hq⟩ := snf_unimodular fuel A o h hf hx
-  refine ⟨hd, snf_det_product fuel A o h hf hx hd h0 h1 h2, ?_⟩
+  refine ⟨hd, ⟨h0, h1, h2⟩, snf_det_product fuel A o h hf hx hd h0 h1 h2, ?_⟩
   have e1 : o.P.adj * o.P = M3.one := by rw [M3.adj_mul, hp]; ext <;> simp [M3.smul, M3.map, M3.one]
   have e2 : o.P * o.P.adj = M3.one := by rw [M3.mul_adj, hp]; ext <;> simp [M3.smul, M3.map, M3.one]
   have hqq : o.Q.det * o.Q.det = 1 := by rcases hq with hq | hq <;> rw [hq] <;> rfl
@@ -155,11 +168,35 @@ theorem snf_result_partial (fuel : Nat) (A : M3 Int) (o : Out) (hA : A.det ≠ 0
   simp only [Bool.and_eq_true, decide_eq_true_eq]
   exact ⟨⟨⟨⟨⟨⟨⟨⟨hinv, hd⟩, h0⟩, h1⟩, h2⟩, e1⟩, e2⟩, e3⟩, e4⟩
 
-/-- what is **not** proved by construction: that the diagonal of a finished run is positive.
-It is decided on every case (`isSNF`, and independently on the implementation's `D`). -/
-def FullStatement_snf_result : Prop :=
-  ∀ (fuel : Nat) (A : M3 Int) (o : Out), A.det ≠ 0 → SNF.run fuel A = .ok o → o.finished = true →
-    o.D.isDiag = true ∧ 0 < o.D.a00 ∧ 0 < o.D.a11 ∧ 0 < o.D.a22
+/-! ### termination of the unbounded loop -/
+
+/-- a `_first()` that runs on a state left by a failed `_first()` (pivot does not divide the rest of
+the first column) strictly decreases `|A₀₀|`; likewise `_second()` and `|A₁₁|`. -/
+theorem snf_pass_decreases :
+    (∀ (s s' : St) (b : Bool), first s = .ok (s', b) → s'.xok = true → PostA s → s'.A.a00.natAbs < s.A.a00.natAbs) ∧
+    (∀ (s : St), PostB s → (second s).1.xok = true → (second s).1.A.a11.natAbs < s.A.a11.natAbs) :=
+  ⟨fun s s' b h hx hA => first_decreases s s' b h hx hA, fun s hB hx => second_decreases s hB hx⟩
+
+/-- every `__next__` that does not stop leaves such a state (for `det ≠ 0`, regular `Xgcd` loops) -/
+theorem snf_next_progress (s s' : St) (h : next s = .ok (s', none)) (hd : s.xok = true → s.A.det ≠ 0) (hx : s'.xok = true) :
+    PostA s' ∨ PostB s' :=
+  next_none_post s s' h hd hx
+
+/-- **snf_terminates**: for every non-singular integer matrix there is a bound `N` such that
+`SNF3x3.run` has stopped after at most `N` iterations of `for _ in self` — for every fuel `≥ N` the
+model reports `finished`, provided the `Xgcd` loops ended regularly (`xok`, which holds whenever all
+intermediate divisors are ≤ 1000 in absolute value, `xgcd_terminates`).  The measure is `|A₀₀|` while
+the first row/column is being cleared, then `|A₁₁|`. -/
+theorem snf_terminates (A : M3 Int) (hA : A.det ≠ 0) :
+    ∃ N : Nat, ∀ (fuel : Nat) (o : Out), N ≤ fuel → SNF.run fuel A = .ok o → o.xok = true → o.finished = true :=
+  run_terminates A hA
+
+/-- what remains unproved about the flags: that the two `_first()/_second()` calls inside `_finalize`, whose
+results the code ignores, always return `True` (`finOk`).  It is checked on every matrix. (`xok` can only
+fail for divisors beyond 1000 in absolute value, `xgcd_terminates`.) -/
+def FullStatement_snf_flags : Prop :=
+  ∀ (fuel : Nat) (A : M3 Int) (o : Out), A.det ≠ 0 → SNF.run fuel A = .ok o → o.finished = true → o.xok = true →
+    o.finOk = true
 
 /-- the executable `isSNF` means what it says -/
 theorem isSNF_sound (A : M3 Int) (o : Out) (h : isSNF A o = true) :
@@ -200,11 +237,10 @@ theorem snf_points_are_reps (S : M3 Int) (c : SnfCert) (hc : c.ok S = true) (x :
 /-- the SNF route end to end: for a non-singular `S`, the points `adj(P)·m`, `m` in the box of the `D`
 the run returns, are a complete irredundant system of representatives of `ℤ³/Sℤ³`. -/
 theorem snf_route_points_are_reps (fuel : Nat) (S : M3 Int) (o : Out) (hS : S.det ≠ 0) (h : SNF.run fuel S = .ok o)
-    (hf : o.finished = true) (hx : o.xok = true) (hok : o.finOk = true)
-    (h0 : 0 < o.D.a00) (h1 : 0 < o.D.a11) (h2 : 0 < o.D.a22) (x : V3 Int) :
+    (hf : o.finished = true) (hx : o.xok = true) (hok : o.finOk = true) (x : V3 Int) :
     ∃! m, m ∈ boxPoints o.D ∧ CongS S x (o.P.adj.mulVec m) :=
   snf_points_are_reps S ⟨o.D, o.P, o.P.adj, o.Q, M3.smul o.Q.det o.Q.adj⟩
-    (snf_result_partial fuel S o hS h hf hx hok h0 h1 h2).2.2 x
+    (snf_result fuel S o hS h hf hx hok).2.2.2 x
 
 /-- the number of representatives is `d₀·d₁·d₂` (= `|det S|` by `snf_det_product`) -/
 theorem snf_points_count (D : M3 Int) : (boxPoints D).length = D.a00.toNat * D.a11.toNat * D.a22.toNat :=
@@ -248,11 +284,22 @@ theorem frame_complete_partial (S : M3 Int) (c : SnfCert) (hS : S.det ≠ 0) (h 
   rw [eqModS_iff S hS] at hpm
   exact ⟨p, hp, hxm.trans' hpm.symm'⟩
 
-/-- the unconditional statement (every integer matrix with positive determinant) is not a theorem here;
-`frameComplete` is evaluated for every matrix the check uses (exhaustively for entries in {-1,0,1},
-det 1..4 in quick; entries in {-1,0,1,2}, det 1..8 in thorough). -/
+/-- the unconditional statement for the classic route -/
 def FullStatement_frame : Prop :=
   ∀ (S : M3 Int), 0 < S.det → ∀ x : V3 Int, ∃ p, p ∈ latticePoints (surroundingFrame S) ∧ CongS S x p
+
+/-- **frame_complete**: `FullStatement_frame` holds — for every integer matrix with positive determinant
+the lattice points of the surrounding frame (`_get_surrounding_frame`: extent of the eight corners of
+the parallelepiped) meet every class of `ℤ³/Sℤ³`.  (Every class has a representative `S·t`,
+`t ∈ [0,1)³`; its coordinates lie in the half-open extent of the corners.) -/
+theorem frame_complete : FullStatement_frame := fun S hS x => Supercell.frame_complete S hS x
+
+/-- the frame extents are the row-wise spreads `Σ max(S_ij,0) − Σ min(S_ij,0)` -/
+theorem surrounding_frame_formula (S : M3 Int) :
+    surroundingFrame S = ⟨rowPos S.a00 S.a01 S.a02 - rowNeg S.a00 S.a01 S.a02,
+                          rowPos S.a10 S.a11 S.a12 - rowNeg S.a10 S.a11 S.a12,
+                          rowPos S.a20 S.a21 S.a22 - rowNeg S.a20 S.a21 S.a22⟩ :=
+  surroundingFrame_eq S
 
 example : isCompleteResidueSystem ⟨1,1,0, 0,1,0, 0,0,2⟩
     ⟨⟨1,0,0, 0,1,0, 0,0,2⟩, ⟨1,0,0, -1,1,0, 0,0,1⟩, ⟨1,0,0, 1,1,0, 0,0,1⟩, ⟨0,-1,0, 1,1,0, 0,0,1⟩, ⟨1,1,0, -1,0,0, 0,0,1⟩⟩
@@ -297,6 +344,23 @@ theorem primitive_built_only_if_consistent (spos : Array (V3 Rat)) (symbols : Ar
     (∀ i, i < spos.size → symbols.getD i 0 = symbols.getD (o.mapping.getD i 0) 0) ∧
     pmat.det ≠ 0 ∧ (spos.size : Int) = ratRint (1 / pmat.det * (o.pos.size : Rat)) :=
   primitive_ok spos symbols pmat o h
+
+/-! ### centring tables (`get_primitive_matrix_by_centring`) -/
+
+/-- the six primitive matrices have determinants `1, 1/4, 1/2, 1/2, 1/2, 1/3` and integral inverses of
+determinant `1, 4, 2, 2, 2, 3`: the conventional lattice is a sublattice of index 1, 4, 2, 2, 2, 3 of the
+primitive one (so `ℤ³ ⊂` primitive lattice, as the translation-group argument needs). -/
+theorem centring_tables :
+    (centringMatrix "P").map (centringOk · 1) = some true ∧ (centringMatrix "F").map (centringOk · 4) = some true ∧
+    (centringMatrix "I").map (centringOk · 2) = some true ∧ (centringMatrix "A").map (centringOk · 2) = some true ∧
+    (centringMatrix "C").map (centringOk · 2) = some true ∧ (centringMatrix "R").map (centringOk · 3) = some true := by
+  decide +kernel
+
+theorem centringOk_sound (m : M3 Rat) (k : Nat) (h : centringOk m k = true) :
+    m.det * (k : Rat) = 1 ∧ (∀ q ∈ m.inv.toList, q.den = 1) ∧ m.inv.det = (k : Rat) := by
+  unfold centringOk at h
+  simp only [Bool.and_eq_true, beq_iff_eq, List.all_eq_true] at h
+  exact ⟨h.1.1, h.1.2, h.2⟩
 
 /-! ### index tables -/
 
@@ -364,12 +428,81 @@ theorem translations_simply_transitive {np ns nt : Nat} (T : PTables np ns nt) (
     obtain ⟨t, ht, hu⟩ := countFin_one _ (h9 k)
     exact ⟨t, by simpa using ht, fun t' ht' => hu t' (by simpa using ht')⟩
 
+open Finset in
+/-- **translations_simply_transitive** from the smaller certificate `wfSmall` (identity, closure,
+sublattices kept, freeness at the representatives, `n_s = n_t·n_p`): the orbit map of every
+representative is injective into its sublattice, the sublattices partition the atoms, so by counting
+each orbit is the whole sublattice — exactly one translation carries the representative to a given atom. -/
+theorem translations_simply_transitive_small {np ns nt : Nat} (T : PTables np ns nt) (h : T.wfSmall = true) :
+    (∃ t, ∀ i, T.perms t i = i) ∧
+    (∀ t t', ∃ t'', ∀ i, T.perms t'' i = T.perms t (T.perms t' i)) ∧
+    (∀ t k, T.s2p (T.perms t k) = T.s2p k) ∧
+    (∀ k, ∃! t, T.perms t (T.s2p k) = k) := by
+  unfold PTables.wfSmall at h
+  simp only [Bool.and_eq_true, allFin_iff, anyFin_iff, beq_iff_eq, Bool.or_eq_true, Bool.not_eq_true'] at h
+  obtain ⟨⟨⟨⟨⟨⟨⟨hcount, h1⟩, h2⟩, h3⟩, hid⟩, hcl⟩, hfree⟩, hsub⟩ := h
+  have hinj : Function.Injective T.p2s := by
+    intro j j' hj
+    rcases h3 j j' with h | h
+    · rw [beq_eq_false_iff_ne] at h; exact absurd hj h
+    · exact h
+  have hfree' : ∀ j : Fin np, Function.Injective (fun t => T.perms t (T.p2s j)) := by
+    intro j t t' ht
+    rcases hfree t t' j with h | h
+    · rw [beq_eq_false_iff_ne] at h; exact absurd ht h
+    · exact h
+  refine ⟨hid, hcl, hsub, ?_⟩
+  -- sublattices
+  let S : Fin np → Finset (Fin ns) := fun j => univ.filter (fun k => T.s2p k = T.p2s j)
+  have hdisj : ∀ j ∈ (univ : Finset (Fin np)), ∀ j' ∈ (univ : Finset (Fin np)), j ≠ j' → Disjoint (S j) (S j') := by
+    intro j _ j' _ hne
+    rw [Finset.disjoint_left]
+    intro k hk hk'
+    simp only [S, mem_filter, mem_univ, true_and] at hk hk'
+    exact hne (hinj (hk.symm.trans hk'))
+  have hcover : (univ : Finset (Fin np)).biUnion S = univ := by
+    ext k
+    simp only [mem_biUnion, mem_univ, true_and, iff_true, S, mem_filter]
+    exact h2 k
+  have hsum : ∑ j, (S j).card = ns := by
+    rw [← Finset.card_biUnion hdisj, hcover, Finset.card_univ, Fintype.card_fin]
+  have himg : ∀ j, (univ.image (fun t => T.perms t (T.p2s j))) ⊆ S j := by
+    intro j k hk
+    simp only [mem_image, mem_univ, true_and] at hk
+    obtain ⟨t, rfl⟩ := hk
+    simp only [S, mem_filter, mem_univ, true_and]
+    rw [hsub, h1]
+  have hle : ∀ j ∈ (univ : Finset (Fin np)), nt ≤ (S j).card := by
+    intro j _
+    calc nt = (univ.image (fun t : Fin nt => T.perms t (T.p2s j))).card := by
+            rw [Finset.card_image_of_injective _ (hfree' j), Finset.card_univ, Fintype.card_fin]
+      _ ≤ (S j).card := Finset.card_le_card (himg j)
+  have hconst : ∑ _j : Fin np, nt = ns := by
+    rw [Finset.sum_const, Finset.card_univ, Fintype.card_fin, smul_eq_mul, hcount, Nat.mul_comm]
+  have heq : ∀ j ∈ (univ : Finset (Fin np)), nt = (S j).card :=
+    (Finset.sum_eq_sum_iff_of_le hle).mp (by rw [hconst, hsum])
+  intro k
+  obtain ⟨j, hj⟩ := h2 k
+  have hfull : univ.image (fun t => T.perms t (T.p2s j)) = S j := by
+    apply Finset.eq_of_subset_of_card_le (himg j)
+    rw [Finset.card_image_of_injective _ (hfree' j), Finset.card_univ, Fintype.card_fin]
+    exact le_of_eq (heq j (mem_univ _)).symm
+  have hk : k ∈ S j := by simp only [S, mem_filter, mem_univ, true_and]; exact hj
+  rw [← hfull] at hk
+  simp only [mem_image, mem_univ, true_and] at hk
+  obtain ⟨t, ht⟩ := hk
+  refine ⟨t, by rw [hj]; exact ht, ?_⟩
+  intro t' ht'
+  rw [hj] at ht'
+  exact hfree' j (ht'.trans ht.symm)
+
 /-- non-vacuity: two atoms of one sublattice, translation of order two -/
 def Tex : PTables 1 2 2 where
   p2s := fun _ => 0
   s2p := fun _ => 0
   perms := fun t i => t + i
 example : Tex.wf = true := by decide
+example : Tex.wfSmall = true := by decide
 def Sex : STables 2 4 where
   s2u := fun k => if k.1 < 2 then 0 else 2
   u2s := fun u => if u.1 = 0 then 0 else 2
@@ -387,7 +520,11 @@ end PhononModel.C04
 #print axioms PhononModel.C04.snf_unimodular
 #print axioms PhononModel.C04.snf_det_product
 #print axioms PhononModel.C04.snf_diagonal
-#print axioms PhononModel.C04.snf_result_partial
+#print axioms PhononModel.C04.snf_positive
+#print axioms PhononModel.C04.snf_result
+#print axioms PhononModel.C04.snf_pass_decreases
+#print axioms PhononModel.C04.snf_next_progress
+#print axioms PhononModel.C04.snf_terminates
 #print axioms PhononModel.C04.isSNF_sound
 #print axioms PhononModel.C04.snf_divisibility_chain_counterexample
 #print axioms PhononModel.C04.snf_rejects_zero_first_column
@@ -397,11 +534,16 @@ end PhononModel.C04
 #print axioms PhononModel.C04.complete_residue_system_sound
 #print axioms PhononModel.C04.classic_eq_snf_as_sets
 #print axioms PhononModel.C04.frame_complete_partial
+#print axioms PhononModel.C04.frame_complete
+#print axioms PhononModel.C04.surrounding_frame_formula
 #print axioms PhononModel.C04.snf_route_lattice_as_coded_counterexample
 #print axioms PhononModel.C04.trim_rejects_nonTiling
 #print axioms PhononModel.C04.supercell_built_only_if_tiling
 #print axioms PhononModel.C04.supercell_rejects_negative_det
 #print axioms PhononModel.C04.primitive_built_only_if_consistent
+#print axioms PhononModel.C04.centring_tables
+#print axioms PhononModel.C04.centringOk_sound
 #print axioms PhononModel.C04.maps_consistent_supercell
 #print axioms PhononModel.C04.maps_consistent_primitive
 #print axioms PhononModel.C04.translations_simply_transitive
+#print axioms PhononModel.C04.translations_simply_transitive_small
